@@ -21,8 +21,8 @@
 (*            destroy the ring.  It is called after every submission has returned (the API's contract), i.e. while tasks may   *)
 (*            still be queued or running.                                                                                     *)
 (* Ghosts: runs, finished, deleted, returned, accepted, arg (the task a helper thread was created for), bad (set of faults).   *)
-(* The dispatcher's record lives in one loop iteration: it dies when the dispatcher continues after thread_yield_to           *)
-(* (DLoop: rec = 0) and is refilled by the next recv.                                                                         *)
+(* The dispatcher's record lives in one loop iteration: it is alive while the dispatcher is suspended in thread_yield_to       *)
+(* (pc "loop"), dead as soon as the dispatcher runs again, and refilled by the next recv.                                     *)
 (* Variant: "none" = the code as it is; the others are deliberately broken witnesses (each must violate a property).          *)
 EXTENDS Naturals, Integers, Sequences, FiniteSets, TLC
 CONSTANTS Workers, External, RingCap, PoolCap, NH, Subs, Bodies, Cfgs
@@ -107,64 +107,60 @@ DtorDestroy == /\ dpc = "dereg" /\ vcpus = {} /\ ringAlive' = FALSE /\ dpc' = "d
                /\ UNCHANGED <<ring, vcpus, subv, ghostv, pc, rq, slp, tk, arg, rec, running, got, exited, pref, dn, bad>>
 
 (* ---------------- delegate_helper, run by thread x of worker w (x = 0: inline in main_loop) ---------------- *)
+\* Steps of one vCPU that no other actor can observe are merged with the step before them: a thread's step runs from one
+\* blocking point / context switch to the next.  A task body that does not block therefore runs, resumes its awaiter or deletes its
+\* functor, decrements running_tasks and ends its thread in ONE step (exactly one effect is visible outside the vCPU).
 \* the task starts: the wrapper lambda of a call() lives in the caller's frame, the functor of an async_call() on the heap
 StartFaults(t) == (IF IsCall(t) /\ returned[t] THEN {"wrapper task used after call() returned"} ELSE {})
                   \cup (IF ~IsCall(t) /\ deleted[t] > 0 THEN {"async task object used after delete"} ELSE {})
 EarlyResume(t) == Variant = "resume_early" /\ IsCall(t)
-Start(w, x, t) == /\ runs' = [runs EXCEPT ![t] = @ + 1]
-                  /\ tk' = [tk EXCEPT ![w][x] = t]
-                  /\ aw' = IF EarlyResume(t) THEN [aw EXCEPT ![t] = @ + 1] ELSE aw
-\* first step of a helper thread: TaskLB tasklb = *(TaskLB*)arg, then tasklb.task() begins
-HCopy(w, h) ==
-  /\ h # 0 /\ IsCur(w, h) /\ pc[w][h] = (IF Variant = "late_copy" THEN "new2" ELSE "new")
-  /\ LET t == rec[w] IN
-     IF t = 0 THEN /\ Fault("helper copied a dead record") /\ Goto(w, h, "free") /\ SetRq(w, Tail(rq[w]))
-                   /\ UNCHANGED <<runs, tk, aw>>
-     ELSE /\ bad' = bad \cup (IF t # arg[w][h] THEN {"helper copied a record that was refilled"} ELSE {}) \cup StartFaults(t)
-          /\ Start(w, h, t) /\ Goto(w, h, "run") /\ UNCHANGED rq
-  /\ UNCHANGED <<ring, ringAlive, vcpus, spc, returned, accepted, finished, deleted, slp, arg, rec, running, got, exited, pref, dtorv>>
+StartAw(t) == IF EarlyResume(t) THEN [aw EXCEPT ![t] = @ + 1] ELSE aw
+\* the task returned: call(): aop.resume() (semaphore::signal / promise::set_value; a second set_value throws); async_call(): delete
+EndAw(t) == IF IsCall(t) /\ ~EarlyResume(t) THEN [aw EXCEPT ![t] = @ + 1] ELSE aw
+EndDeleted(t) == IF ~IsCall(t) /\ Variant # "no_delete" THEN [deleted EXCEPT ![t] = @ + 1] ELSE deleted
+EndFaults(t) == IF IsCall(t)
+                THEN (IF returned[t] THEN {"awaiter used after call() returned"} ELSE {})
+                     \cup (IF OpOf(t).ctx = "std" /\ ~EarlyResume(t) /\ (aw[t] >= 1 \/ returned[t]) THEN {"promise satisfied twice"} ELSE {})
+                ELSE (IF deleted[t] > 0 THEN {"async task object deleted twice"} ELSE {})
+\* after *tasklb.count -= 1: main_loop continues (mode -1) / the thread ends (mode 0) / it goes back to its pool (mode > 0): parked
+\* in wait_for_work if the pool has room, else IdentityPool::put -> dtor(own ctrl) -> thread_yield() with the pool reference still held
+After(w, x) == IF x = 0 THEN <<"recv", rq[w], pref[w]>>
+               ELSE IF Mode = "thread" THEN <<"free", Tail(rq[w]), pref[w]>>
+               ELSE IF Cardinality(Idle(w)) < PoolCap THEN <<"idle", Tail(rq[w]), pref[w] - 1>>
+               ELSE <<"dying", Rotate(rq[w]), pref[w]>>
+Leave(w, x) == LET a == After(w, x) IN /\ pc' = [pc EXCEPT ![w][x] = a[1]] /\ rq' = [rq EXCEPT ![w] = a[2]]
+                                       /\ pref' = [pref EXCEPT ![w] = a[3]]
+\* first step of a helper thread: TaskLB tasklb = *(TaskLB*)arg; tasklb.task() runs up to its first blocking point (or to its end).
+\* The dispatcher's record is alive only while the dispatcher is suspended inside its loop iteration (pc "loop").
+HStart(w, h, k) ==
+  /\ h # 0 /\ IsCur(w, h) /\ pc[w][h] = (IF Variant = "late_copy" THEN "new2" ELSE "new") /\ k \in Bodies
+  /\ LET t == IF pc[w][0] = "loop" THEN rec[w] ELSE 0
+         sf == (IF t # arg[w][h] THEN {"helper copied a record that was refilled"} ELSE {}) \cup StartFaults(t) IN
+     IF t = 0 THEN /\ k = "plain" /\ Fault("helper copied a dead record") /\ Goto(w, h, "free") /\ SetRq(w, Tail(rq[w]))
+                   /\ UNCHANGED <<runs, tk, aw, finished, deleted, running, pref, slp>>
+     ELSE /\ runs' = [runs EXCEPT ![t] = @ + 1]
+          /\ CASE k = "plain" -> /\ finished' = [finished EXCEPT ![t] = TRUE] /\ deleted' = EndDeleted(t)
+                                 /\ aw' = IF IsCall(t) THEN [aw EXCEPT ![t] = @ + 1] ELSE aw
+                                 /\ bad' = bad \cup sf \cup EndFaults(t)
+                                 /\ running' = [running EXCEPT ![w] = @ - 1] /\ Leave(w, h) /\ UNCHANGED <<tk, slp>>
+              [] k = "yield" -> /\ tk' = [tk EXCEPT ![w][h] = t] /\ aw' = StartAw(t) /\ bad' = bad \cup sf
+                                 /\ Goto(w, h, "run2") /\ SetRq(w, Rotate(rq[w])) /\ UNCHANGED <<finished, deleted, running, pref, slp>>
+              [] k = "sleep" -> /\ tk' = [tk EXCEPT ![w][h] = t] /\ aw' = StartAw(t) /\ bad' = bad \cup sf
+                                 /\ Goto(w, h, "run2") /\ SetRq(w, Tail(rq[w])) /\ slp' = [slp EXCEPT ![w] = @ \cup {h}]
+                                 /\ UNCHANGED <<finished, deleted, running, pref>>
+  /\ UNCHANGED <<ring, ringAlive, vcpus, spc, returned, accepted, arg, rec, got, exited, dtorv>>
 \* witness "late_copy": the helper gives the CPU away once before it copies
 HLateYield(w, h) ==
   /\ Variant = "late_copy" /\ h # 0 /\ IsCur(w, h) /\ pc[w][h] = "new"
   /\ Goto(w, h, "new2") /\ SetRq(w, Rotate(rq[w]))
   /\ UNCHANGED <<ring, ringAlive, vcpus, subv, ghostv, slp, tk, arg, rec, running, got, exited, pref, dtorv, bad>>
-\* the task body: returns at once, or yields once, or sleeps once (woken by Wake) and then returns
-HBody(w, x, kind) ==
-  /\ IsCur(w, x) /\ pc[w][x] = "run" /\ kind \in Bodies
-  /\ CASE kind = "plain" -> /\ finished' = [finished EXCEPT ![tk[w][x]] = TRUE] /\ Goto(w, x, "post") /\ UNCHANGED <<rq, slp>>
-       [] kind = "yield" -> /\ Goto(w, x, "run2") /\ SetRq(w, Rotate(rq[w])) /\ UNCHANGED <<finished, slp>>
-       [] kind = "sleep" -> /\ Goto(w, x, "run2") /\ SetRq(w, Tail(rq[w])) /\ slp' = [slp EXCEPT ![w] = @ \cup {x}] /\ UNCHANGED finished
-  /\ UNCHANGED <<ring, ringAlive, vcpus, subv, runs, deleted, tk, arg, rec, running, got, exited, pref, dtorv, bad>>
-HBodyEnd(w, x) ==
+\* back from the yield / sleep: the body returns; resume or delete; running_tasks--; the thread leaves
+HEnd(w, x) ==
   /\ IsCur(w, x) /\ pc[w][x] = "run2"
-  /\ finished' = [finished EXCEPT ![tk[w][x]] = TRUE] /\ Goto(w, x, "post")
-  /\ UNCHANGED <<ring, ringAlive, vcpus, subv, runs, deleted, rq, slp, tk, arg, rec, running, got, exited, pref, dtorv, bad>>
-\* after the body: call(): aop.resume()  (semaphore::signal / promise::set_value; a second set_value throws);
-\*                 async_call(): delete the task object
-HPost(w, x) ==
-  /\ IsCur(w, x) /\ pc[w][x] = "post"
   /\ LET t == tk[w][x] IN
-     IF IsCall(t)
-     THEN /\ aw' = IF EarlyResume(t) THEN aw ELSE [aw EXCEPT ![t] = @ + 1]
-          /\ bad' = bad \cup (IF returned[t] THEN {"awaiter used after call() returned"} ELSE {})
-                        \cup (IF OpOf(t).ctx = "std" /\ ~EarlyResume(t) /\ (aw[t] >= 1 \/ returned[t]) THEN {"promise satisfied twice"} ELSE {})
-          /\ UNCHANGED deleted
-     ELSE /\ deleted' = IF Variant = "no_delete" THEN deleted ELSE [deleted EXCEPT ![t] = @ + 1]
-          /\ bad' = bad \cup (IF deleted[t] > 0 THEN {"async task object deleted twice"} ELSE {})
-          /\ UNCHANGED aw
-  /\ Goto(w, x, "dec")
-  /\ UNCHANGED <<ring, ringAlive, vcpus, spc, returned, accepted, runs, finished, rq, slp, tk, arg, rec, running, got, exited, pref, dtorv>>
-\* *tasklb.count -= 1; then the thread ends (mode 0) / goes back to its pool (mode > 0) / main_loop continues (mode -1)
-HDec(w, x) ==
-  /\ IsCur(w, x) /\ pc[w][x] = "dec"
-  /\ running' = [running EXCEPT ![w] = @ - 1]
-  /\ tk' = [tk EXCEPT ![w][x] = 0]
-  /\ IF x = 0 THEN Goto(w, 0, "recv") /\ UNCHANGED <<rq, pref>>
-     ELSE IF Mode = "thread" THEN Goto(w, x, "free") /\ SetRq(w, Tail(rq[w])) /\ UNCHANGED pref
-     ELSE IF Cardinality(Idle(w)) < PoolCap                       \* IdentityPool::put keeps it: it sleeps in wait_for_work
-          THEN Goto(w, x, "idle") /\ SetRq(w, Tail(rq[w])) /\ pref' = [pref EXCEPT ![w] = @ - 1]
-          ELSE Goto(w, x, "dying") /\ SetRq(w, Rotate(rq[w])) /\ UNCHANGED pref      \* put -> dtor(own ctrl): thread_yield()
-  /\ UNCHANGED <<ring, ringAlive, vcpus, subv, ghostv, slp, arg, rec, got, exited, dtorv, bad>>
+     /\ finished' = [finished EXCEPT ![t] = TRUE] /\ aw' = EndAw(t) /\ deleted' = EndDeleted(t) /\ bad' = bad \cup EndFaults(t)
+  /\ running' = [running EXCEPT ![w] = @ - 1] /\ tk' = [tk EXCEPT ![w][x] = 0] /\ Leave(w, x)
+  /\ UNCHANGED <<ring, ringAlive, vcpus, spc, returned, accepted, runs, slp, arg, rec, got, exited, dtorv>>
 \* back from the yield inside ThreadPoolBase::dtor: --m_refcnt, notify; wait_for_work sees the stub marker, the thread ends
 HDie(w, h) ==
   /\ IsCur(w, h) /\ pc[w][h] = "dying"
@@ -176,31 +172,43 @@ Wake(w, x) ==
   /\ UNCHANGED <<ring, ringAlive, vcpus, subv, ghostv, pc, tk, arg, rec, running, got, exited, pref, dtorv, bad>>
 
 (* ---------------- main_loop (thread 0 of worker w) ---------------- *)
-\* ring->recv: pop succeeded
-DRecv(w) ==
-  /\ IsCur(w, 0) /\ pc[w][0] = "recv" /\ ring # <<>>
+\* "loop" = suspended in thread_yield_to inside a loop iteration; when the dispatcher runs again the iteration (and `tasklb`) ends
+AtRecv(w) == pc[w][0] \in {"recv", "loop"}
+RingFault == IF ringAlive THEN {} ELSE {"recv on a destroyed ring"}
+\* ring->recv: pop succeeded.  marker: leave the loop.  task: running++, fill the record; mode -1: delegate_helper inline (k = how the
+\* body behaves), else the helper thread is made in the next step (DSpawn)
+DRecv(w, k) ==
+  /\ IsCur(w, 0) /\ AtRecv(w) /\ ring # <<>> /\ (IF Mode = "inline" /\ Head(ring) # 0 THEN k \in Bodies ELSE k = "plain")
   /\ ring' = Tail(ring)
   /\ LET x == Head(ring) IN
-     IF x = 0 THEN /\ got' = [got EXCEPT ![w] = @ + 1] /\ Goto(w, 0, "drain")
-                   /\ bad' = bad \cup (IF ringAlive THEN {} ELSE {"recv on a destroyed ring"})
-                   /\ UNCHANGED <<running, rec, runs, tk, aw>>
-     ELSE /\ running' = [running EXCEPT ![w] = @ + 1] /\ rec' = [rec EXCEPT ![w] = x] /\ UNCHANGED got
-          /\ IF Mode = "inline"
-             THEN /\ Start(w, 0, x) /\ Goto(w, 0, "run")
-                  /\ bad' = bad \cup StartFaults(x) \cup (IF ringAlive THEN {} ELSE {"recv on a destroyed ring"})
-             ELSE /\ Goto(w, 0, "spawn") /\ UNCHANGED <<runs, tk, aw>>
-                  /\ bad' = bad \cup (IF ringAlive THEN {} ELSE {"recv on a destroyed ring"})
-  /\ UNCHANGED <<ringAlive, vcpus, spc, returned, accepted, finished, deleted, rq, slp, arg, exited, pref, dtorv>>
+     IF x = 0 THEN /\ got' = [got EXCEPT ![w] = @ + 1] /\ Goto(w, 0, "drain") /\ bad' = bad \cup RingFault
+                   /\ UNCHANGED <<running, rec, runs, tk, aw, finished, deleted, rq, slp>>
+     ELSE IF Mode # "inline"
+     THEN /\ running' = [running EXCEPT ![w] = @ + 1] /\ rec' = [rec EXCEPT ![w] = x] /\ Goto(w, 0, "spawn")
+          /\ bad' = bad \cup RingFault /\ UNCHANGED <<got, runs, tk, aw, finished, deleted, rq, slp>>
+     ELSE /\ rec' = [rec EXCEPT ![w] = x] /\ runs' = [runs EXCEPT ![x] = @ + 1] /\ UNCHANGED got
+          /\ CASE k = "plain" -> /\ finished' = [finished EXCEPT ![x] = TRUE] /\ deleted' = EndDeleted(x)
+                                 /\ aw' = IF IsCall(x) THEN [aw EXCEPT ![x] = @ + 1] ELSE aw
+                                 /\ bad' = bad \cup RingFault \cup StartFaults(x) \cup EndFaults(x)
+                                 /\ Goto(w, 0, "recv") /\ UNCHANGED <<running, tk, rq, slp>>
+              [] k = "yield" -> /\ running' = [running EXCEPT ![w] = @ + 1] /\ tk' = [tk EXCEPT ![w][0] = x] /\ aw' = StartAw(x)
+                                 /\ bad' = bad \cup RingFault \cup StartFaults(x)
+                                 /\ Goto(w, 0, "run2") /\ SetRq(w, Rotate(rq[w])) /\ UNCHANGED <<finished, deleted, slp>>
+              [] k = "sleep" -> /\ running' = [running EXCEPT ![w] = @ + 1] /\ tk' = [tk EXCEPT ![w][0] = x] /\ aw' = StartAw(x)
+                                 /\ bad' = bad \cup RingFault \cup StartFaults(x)
+                                 /\ Goto(w, 0, "run2") /\ SetRq(w, Tail(rq[w])) /\ slp' = [slp EXCEPT ![w] = @ \cup {0}]
+                                 /\ UNCHANGED <<finished, deleted>>
+  /\ UNCHANGED <<ringAlive, vcpus, spc, returned, accepted, arg, exited, pref, dtorv>>
 \* ring->recv: nothing there: yield (spin turns) ...
 DRecvYield(w) ==
-  /\ IsCur(w, 0) /\ pc[w][0] = "recv" /\ ring = <<>> /\ Len(rq[w]) > 1
-  /\ SetRq(w, Rotate(rq[w]))
-  /\ UNCHANGED <<ring, ringAlive, vcpus, subv, ghostv, pc, slp, tk, arg, rec, running, got, exited, pref, dtorv, bad>>
+  /\ IsCur(w, 0) /\ AtRecv(w) /\ ring = <<>> /\ Len(rq[w]) > 1
+  /\ SetRq(w, Rotate(rq[w])) /\ Goto(w, 0, "recv")
+  /\ UNCHANGED <<ring, ringAlive, vcpus, subv, ghostv, slp, tk, arg, rec, running, got, exited, pref, dtorv, bad>>
 \* ... or queue_sem.wait(1, 100 ms): leaves the run queue; Wake brings it back (signal or time-out, so at any time)
 DRecvSleep(w) ==
-  /\ IsCur(w, 0) /\ pc[w][0] = "recv" /\ ring = <<>>
-  /\ SetRq(w, Tail(rq[w])) /\ slp' = [slp EXCEPT ![w] = @ \cup {0}]
-  /\ UNCHANGED <<ring, ringAlive, vcpus, subv, ghostv, pc, tk, arg, rec, running, got, exited, pref, dtorv, bad>>
+  /\ IsCur(w, 0) /\ AtRecv(w) /\ ring = <<>>
+  /\ SetRq(w, Tail(rq[w])) /\ slp' = [slp EXCEPT ![w] = @ \cup {0}] /\ Goto(w, 0, "recv")
+  /\ UNCHANGED <<ring, ringAlive, vcpus, subv, ghostv, tk, arg, rec, running, got, exited, pref, dtorv, bad>>
 \* thread_create(&delegate_helper, &tasklb) / pool->thread_create(...), then thread_yield_to(th)
 DSpawn(w) ==
   /\ IsCur(w, 0) /\ pc[w][0] = "spawn"
@@ -210,11 +218,6 @@ DSpawn(w) ==
      /\ pref' = IF Mode = "pooled" THEN [pref EXCEPT ![w] = @ + 1] ELSE pref
      /\ SetRq(w, IF Variant = "no_yield_to" THEN Append(rq[w], h) ELSE GotoFront(Append(rq[w], h), h))
   /\ UNCHANGED <<ring, ringAlive, vcpus, subv, ghostv, slp, tk, rec, running, got, exited, dtorv, bad>>
-\* the dispatcher runs again: the loop iteration (and with it `tasklb`) ends
-DLoop(w) ==
-  /\ IsCur(w, 0) /\ pc[w][0] = "loop"
-  /\ rec' = [rec EXCEPT ![w] = 0] /\ Goto(w, 0, "recv")
-  /\ UNCHANGED <<ring, ringAlive, vcpus, subv, ghostv, rq, slp, tk, arg, running, got, exited, pref, dtorv, bad>>
 \* while (running_tasks) thread_yield();   ~IdentityPool waits for its references the same way
 Drained(w) == Variant = "no_drain" \/ (running[w] = 0 /\ pref[w] = 0)
 DDrainYield(w) ==
@@ -234,9 +237,9 @@ DExit(w) ==
   /\ UNCHANGED <<ring, ringAlive, vcpus, subv, ghostv, rq, slp, tk, arg, rec, running, got, pref, dtorv, bad>>
 
 Finished == dpc = "done" /\ UNCHANGED <<ring, ringAlive, vcpus, subv, ghostv, pc, rq, slp, tk, arg, rec, running, got, exited, pref, dtorv, bad>>
-WorkerNext(w) == \/ DRecv(w) \/ DRecvYield(w) \/ DRecvSleep(w) \/ DSpawn(w) \/ DLoop(w) \/ DDrainYield(w) \/ DDereg(w) \/ DExit(w)
-                 \/ \E x \in TH : \/ HCopy(w, x) \/ HLateYield(w, x) \/ HBodyEnd(w, x) \/ HPost(w, x) \/ HDec(w, x) \/ HDie(w, x)
-                                  \/ Wake(w, x) \/ \E k \in Bodies : HBody(w, x, k)
+WorkerNext(w) == \/ DRecvYield(w) \/ DRecvSleep(w) \/ DSpawn(w) \/ DDrainYield(w) \/ DDereg(w) \/ DExit(w)
+                 \/ \E k \in Bodies \cup {"plain"} : DRecv(w, k)
+                 \/ \E x \in TH : \/ HLateYield(w, x) \/ HEnd(w, x) \/ HDie(w, x) \/ Wake(w, x) \/ \E k \in Bodies : HStart(w, x, k)
 Next == /\ \/ \E s \in Subs : SubEnqueue(s) \/ SubSuspend(s)
            \/ DtorBegin \/ DtorSend \/ DtorJoin \/ DtorDestroy
            \/ \E w \in Workers : WorkerNext(w)
@@ -256,14 +259,14 @@ CallReturnsAfterFinish == \A t \in Tasks : returned[t] => (IsCall(t) /\ finished
 AsyncDeletedOnceAfterRun == /\ \A t \in Tasks : deleted[t] <= 1 /\ (deleted[t] = 1 => ~IsCall(t) /\ finished[t])
                             /\ (dpc = "done" => \A t \in accepted : ~IsCall(t) => deleted[t] = 1)
 RecordCopiedBeforeReuse == /\ "helper copied a dead record" \notin bad /\ "helper copied a record that was refilled" \notin bad
-                           /\ \A w \in Workers, h \in 1..NH : pc[w][h] \in {"run", "run2", "post", "dec"} => tk[w][h] = arg[w][h]
+                           /\ \A w \in Workers, h \in 1..NH : pc[w][h] = "run2" => tk[w][h] = arg[w][h]
 DestructorWaits == ~ringAlive => /\ \A t \in accepted : finished[t] /\ (IsCall(t) \/ deleted[t] = 1)
                                  /\ \A w \in Workers : pc[w][0] \in {"fini", "gone"} /\ running[w] = 0
                                  /\ \A w \in Owned : exited[w]
 EveryWorkerGetsOneMarker == /\ \A w \in Workers : got[w] <= 1 /\ (pc[w][0] \in {"drain", "fini", "gone"} <=> got[w] = 1)
                             /\ (dpc = "done" => \A w \in Workers : got[w] = 1)
 RingBounded == Len(ring) <= RingCap
-RunningCounts == \A w \in Workers : running[w] = Cardinality({x \in TH : pc[w][x] \in {"new", "new2", "run", "run2", "post", "dec"}})
+RunningCounts == \A w \in Workers : running[w] = Cardinality({x \in TH : pc[w][x] \in {"new", "new2", "run2"}})
                                                  + (IF pc[w][0] \in {"spawn"} THEN 1 ELSE 0)
 \* deadlock freedom.  Receivers poll (timed waits), so a stuck system still has polling steps; "at rest" = nothing but polling is
 \* possible: every submitter is finished or blocked, the destructor cannot move, every worker has left or polls an empty ring and
@@ -271,7 +274,7 @@ RunningCounts == \A w \in Workers : running[w] = Cardinality({x \in TH : pc[w][x
 AtRest == /\ \A s \in Subs : SDone(s) \/ (spc[s].ph = "enq" /\ Len(ring) >= RingCap) \/ (spc[s].ph = "susp" /\ aw[SOp(s).t] = 0)
           /\ ~ENABLED (DtorBegin \/ DtorSend \/ DtorJoin \/ DtorDestroy)
           /\ \A w \in Workers : /\ \A h \in 1..NH : pc[w][h] \in {"free", "idle"}
-                                 /\ (pc[w][0] = "gone" \/ (pc[w][0] = "recv" /\ ring = <<>>) \/ (pc[w][0] = "drain" /\ ~Drained(w)))
+                                 /\ (pc[w][0] = "gone" \/ (AtRecv(w) /\ ring = <<>>) \/ (pc[w][0] = "drain" /\ ~Drained(w)))
 NoStuck == AtRest => dpc = "done"
 Terminates == <>(dpc = "done")
 (* ---------------- anti-vacuity, recorded in TLC registers (run with ONE worker), printed by the postcondition ---------------- *)
@@ -284,7 +287,14 @@ Holds(n) == CASE n = "NoFault" -> NoFault [] n = "RunsExactlyOnce" -> RunsExactl
               [] n = "RecordCopiedBeforeReuse" -> RecordCopiedBeforeReuse [] n = "DestructorWaits" -> DestructorWaits
               [] n = "EveryWorkerGetsOneMarker" -> EveryWorkerGetsOneMarker [] n = "NoStuck" -> NoStuck
               [] n = "RunningCounts" -> RunningCounts
-WitnessRecord == LET v == {n \in PropNames : ~Holds(n)} IN
+\* the property each broken variant attacks
+Attacked(v) == CASE v \in {"late_copy", "no_yield_to"} -> {"RecordCopiedBeforeReuse"}
+                 [] v = "no_drain" -> {"DestructorWaits"}
+                 [] v = "resume_early" -> {"CallReturnsAfterFinish"}
+                 [] v = "marker_short" -> {"NoStuck"}
+                 [] v = "no_delete" -> {"AsyncDeletedOnceAfterRun"}
+                 [] OTHER -> PropNames
+WitnessRecord == LET v == {n \in Attacked(cf.variant) : ~Holds(n)} IN
                  IF v = {} THEN TRUE ELSE TLCSet(2, TLCGet(2) \cup {<<cf.variant, cf.mode, n>> : n \in v}) /\ FALSE
 WitnessPost == PrintT(<<"WITNESS", TLCGet(2)>>)
 \* reachability in the runs of the code as it is: the situations the property is about do occur in the model
@@ -292,9 +302,9 @@ Reached == {r \in {"full_ring", "dtor_while_running", "two_helpers", "pool_overf
                    "marker_blocked_by_full_ring", "pooled_thread_reused"} :
             CASE r = "full_ring" -> Len(ring) = RingCap /\ \E s \in Subs : ~SDone(s) /\ spc[s].ph = "enq"
               [] r = "dtor_while_running" -> dpc = "markers" /\ \E w \in Workers : running[w] > 0
-              [] r = "two_helpers" -> \E w \in Workers : Cardinality({h \in 1..NH : pc[w][h] \in {"run", "run2", "post"}}) >= 2
+              [] r = "two_helpers" -> \E w \in Workers : Cardinality({h \in 1..NH : pc[w][h] = "run2"}) >= 2
               [] r = "pool_overflow" -> \E w \in Workers, h \in 1..NH : pc[w][h] = "dying"
-              [] r = "helper_pending_other_running" -> \E w \in Workers, h, k \in 1..NH : pc[w][h] = "new" /\ pc[w][k] \in {"run", "run2"}
+              [] r = "helper_pending_other_running" -> \E w \in Workers, h, k \in 1..NH : pc[w][h] = "new" /\ pc[w][k] = "run2"
               [] r = "sleeping_at_dtor" -> dpc \in {"markers", "join"} /\ \E w \in Workers : \E x \in slp[w] : pc[w][x] = "run2"
               [] r = "marker_blocked_by_full_ring" -> dpc = "markers" /\ Len(ring) = RingCap
               [] r = "pooled_thread_reused" -> \E w \in Workers : pc[w][0] = "spawn" /\ Idle(w) # {}}
